@@ -599,6 +599,10 @@ type lineWriter struct {
 	nl    string
 	line  int
 	accts []string // accounts posted to so far in this journal (see "account.reuse")
+	year  int      // default year in force (last Y / year directive), 0 if none
+	lastP string   // spelling of the last partial date written (M s D)
+	lastMD [2]int
+	repeatP bool   // a Y directive followed a partial date: the next transaction repeats its spelling
 }
 
 // reuseAccount: real journals post to the same few accounts again and again, as ordinary and as
@@ -631,6 +635,22 @@ func genTransaction(r *rand.Rand, w *lineWriter, o GOpts, feat map[string]bool) 
 	e := GEntry{Kind: "tx", FirstLine: w.line}
 	var hd strings.Builder
 	date, ds := genDate(r, o, feat)
+	if w.year != 0 && (o.on(r, "date.partial", 2) || (w.repeatP && !o.Deny["date.partial"])) {
+		// G 4.2: `M s D` after a Y / year directive.  Half of the partial dates repeat the
+		// spelling of the previous one (the same day of another year, after another Y directive:
+		// seed r6-C03 remembered the last date by its spelling).
+		feat["date.partial"] = true
+		if w.lastP != "" && (w.repeatP || r.IntN(2) == 0) {
+			w.repeatP = false
+			ds = w.lastP
+			date = [3]int{w.year, w.lastMD[0], w.lastMD[1]}
+		} else {
+			i := strings.IndexAny(ds, "-/.")
+			ds = ds[i+1:]
+			date[0] = w.year
+			w.lastP, w.lastMD = ds, [2]int{date[1], date[2]}
+		}
+	}
 	e.Date = date
 	hd.WriteString(ds)
 	if use("date2", 6) {
@@ -820,6 +840,8 @@ func genDirective(r *rand.Rand, w *lineWriter, o GOpts, feat map[string]bool) GE
 	case "Y":
 		e.Year = 1990 + r.IntN(50)
 		w.put(pick(r, []string{"Y", "year"}) + " " + fmt.Sprintf("%d", e.Year))
+		w.year = e.Year
+		w.repeatP = w.lastP != ""
 	case "D":
 		sym, format := genFormatSample(r, o, feat)
 		e.Symbol, e.Format = sym, format
